@@ -160,6 +160,12 @@ func pointOnSegment(p, l1, l2 Point) bool {
 	}
 	d1 := pointSubtract(l1, p)
 	d2 := pointSubtract(l2, l1)
+	if math.IsInf(d1.X, 0) || math.IsInf(d1.Y, 0) || math.IsInf(d2.X, 0) || math.IsInf(d2.Y, 0) {
+		// coordinate differences beyond the float64 range: the slopes of the
+		// figure scaled by one half are the same
+		d1 = Point{X: l1.X/2 - p.X/2, Y: l1.Y/2 - p.Y/2}
+		d2 = Point{X: l2.X/2 - l1.X/2, Y: l2.Y/2 - l1.Y/2}
+	}
 
 	// If the two slopes are the same, then the point is on the line
 	if (d1.X == 0 && d2.X == 0) || d1.Y/d1.X == d2.Y/d2.X {
